@@ -16,7 +16,9 @@ same or at another address) and a script; judged exactly like `prog` (where a de
 part of the calculus, so both models are unchanged).
 
 `prog`, direct oracle (independent of the evaluator): `false-condition-ignored` — the run completed
-normally although `main` calls a function that has a constant-false test condition in scope (own, or
+normally although `main` calls a function that has a test condition in scope that is false in every state
+(`mustFalse`: `false`, `e < e`, `e + k == e`, closed under `&&`, `||`, `!` — so also the reading
+`(c && p) || (!c && q)` of a source conditional `c ? p : q` whose taken branch is false) (own, or
 of any interface reachable from the composite; pre or post).
 Go-vs-Go: the engines must agree (`engines-differ`) unless the two models say they differ and each engine
 matches its model — class `vm-before-hoisted-over-pre` (known finding: the VM evaluates every inherited
@@ -74,16 +76,31 @@ def judgeConf (graph go : String) : Verdict :=
     else .ok tags
 
 mutual
-partial def bHasFF : BExp → Bool
+/-- the test never evaluates to `true` (it is false, or it faults), recognised syntactically -/
+def mustFalse : BExp → Bool
   | .ff => true
-  | .lt l r => l == r                -- `e < e` (e.g. `before(e) < before(e)`): false whenever it evaluates
-  | .and l r => bHasFF l || bHasFF r
+  | .lt l r => l == r                                   -- `e < e`, e.g. `before(e) < before(e)`
+  | .eq (.add l (.lit k)) r => l == r && k != 0         -- `e + k == e`
+  | .and l r => mustFalse l || mustFalse r
+  | .or l r => mustFalse l && mustFalse r
+  | .not e => mustTrue e
+  | _ => false
+/-- the test never evaluates to `false` -/
+def mustTrue : BExp → Bool
+  | .tt => true
+  | .le l r => l == r
+  | .eq l r => l == r
+  | .and l r => mustTrue l && mustTrue r
+  | .or l r => mustTrue l || mustTrue r
+  | .not e => mustFalse e
   | _ => false
 end
 
-/-- a test that is false in every state, recognised syntactically (`false`, `e < e`, or a conjunction containing one) -/
+/-- a test that is false in every state in which it evaluates, recognised syntactically: `false`, `e < e`,
+    `e + k == e`, closed under `&&`, `||`, `!` (a conditional expression `c ? p : q` of the source reaches
+    the calculus as `(c && p) || (!c && q)`) -/
 def condConstFalse : Cond → Bool
-  | .test t => bHasFF t
+  | .test t => mustFalse t
   | .emit _ => false
 
 def constFalseInScope (p : Program) (name : String) : Bool :=
